@@ -502,7 +502,18 @@ pub fn run(ctx: &mut Ctx, multi: bool) {
                 _ => 5 + r.below(4) as usize,
             }
         };
-        let store = gen_store(&mut r, n, big);
+        let wide = r.chance(1, 15);
+        let n_store = if wide { 55 + r.below(60) as usize } else { n };
+        let mut store = gen_store(&mut r, n_store, big);
+        if wide {
+            // more matching UTxOs at one address than the selection window holds
+            for u in store.utxos.iter_mut() {
+                if r.chance(9, 10) {
+                    u.address = addr(0xA1);
+                }
+            }
+            *hist.entry("wide_wallet".into()).or_default() += 1;
+        }
         let k = if multi { 1 + r.below(4) as usize } else if r.chance(1, 10) { 2 } else { 1 };
         let names = ["a", "b", "c", "d"];
         let mut blocks = vec![];
